@@ -1505,12 +1505,18 @@ pub fn run_c16(s: &mut Sink) {
             let imm_set: Vec<i32> = if matches!(k, Kind::End { .. }) { vec![16, 32, 64] } else if ui { imms.clone() } else { vec![0] };
             let dsts: Vec<u8> = if ud { (0..16).collect() } else { vec![0] };
             let srcs: Vec<u8> = if matches!(k, Kind::Call) { vec![0, 1] } else if us { (0..16).collect() } else { vec![0] };
-            // with the full offset range (quick tier) the other fields stay on three fixed combinations
-            let diag = full_off && !thorough;
+            // with the full offset range the other fields stay on a few fixed combinations (three in
+            // the quick tier; thorough: every opcode gets the full range and ~18 combinations)
+            let diag = full_off;
             if diag {
-                let combos: [(u8, u8, i32); 3] = [(0, 0, imm_set[0]), (15, if matches!(k, Kind::Call) { 1 } else { 15 }, *imm_set.last().unwrap()), (3, if matches!(k, Kind::Call) { 1 } else { 9 }, imm_set[imm_set.len() / 2])];
+                let mut combos: Vec<(u8, u8, i32)> = vec![(0, 0, imm_set[0]), (15, if matches!(k, Kind::Call) { 1 } else { 15 }, *imm_set.last().unwrap()), (3, if matches!(k, Kind::Call) { 1 } else { 9 }, imm_set[imm_set.len() / 2])];
+                if thorough {
+                    for (n, im) in imm_set.iter().enumerate().step_by((imm_set.len() / 15).max(1)) {
+                        combos.push(((n % 16) as u8, if matches!(k, Kind::Call) { (n % 2) as u8 } else { ((n * 7 + 1) % 16) as u8 }, *im));
+                    }
+                }
                 for off in &offset_set {
-                    for (d, sr, im) in combos {
+                    for (d, sr, im) in combos.iter().copied() {
                         c16_check(s, &[I::new(opc, if ud { d } else { 0 }, if us { sr } else { 0 }, *off, if ui { im } else { 0 })], &class);
                         n += 1;
                     }
@@ -1541,6 +1547,9 @@ pub fn run_c16(s: &mut Sink) {
                     }
                 }
             }
+        }
+        if std::env::var("VERIF_TRACE").is_ok() {
+            eprintln!("c16 opcode {opc:#x} evaluations {n} elapsed {:.1}s", s.elapsed_s());
         }
         s.count("evaluations", n);
         s.count("distinct_nontrivial", n);
